@@ -423,15 +423,17 @@ func verif_contract_fastlog_Line_appendIP6(l *Line, ip net.IP) {
 }
 
 func verif_inv_fastlog_Line_IPArray_1(l *Line, rangeindex int, value []net.IP) bool {
-	return l != nil && vForall(0, len(value), func(i int) bool { return !vSameRegion(value[i], l.buffer[:]) }) && -1 <= rangeindex && rangeindex < len(value) && 0 <= l.index && l.index <= bufSize
+	return l != nil && 1 <= l.index && vForall(0, len(value), func(i int) bool { return !vSameRegion(value[i], l.buffer[:]) }) && -1 <= rangeindex && rangeindex < len(value) && 0 <= l.index && l.index <= bufSize
 }
 func verif_dec_fastlog_Line_IPArray_1(rangeindex int, value []net.IP) int {
 	return len(value) - rangeindex
 }
 
 // IPArray: for ANY number of addresses, no panic and the index stays inside the buffer.
+// (the IPv4 branch copies entries of the 256-entry byteAscii table: slow queries)
 //
 //verif:props C20
+//verif:timeout 90s
 func verif_contract_fastlog_Line_IPArray(l *Line, name string, value []net.IP) *Line {
 	vRequires(spec_line_wf(l))
 	vRequires(vForall(0, len(value), func(i int) bool { return !vSameRegion(value[i], l.buffer[:]) }))
